@@ -1,7 +1,7 @@
 (* EngineRun.v — wire entry points for Cond / Target / Policy / PolicySet /
    Compiler / Oblig / Engine (runner "engine"). *)
 From Coq Require Import ZArith List Bool String Ascii.
-From Rbacx Require Import Value Wire Num Time Cond Target Policy PolicySet Compiler Oblig Engine.
+From Rbacx Require Import Value Wire Num Time Cond Target Policy PolicySet Compiler Oblig Engine PolicyProofs PolicySetProofs.
 Import ListNotations.
 Local Open Scope string_scope.
 
@@ -166,6 +166,34 @@ Definition run_engine (args : list value) : value :=
       end
   | _ => vtag "badargs" []
   end.
+(* engine.facts strict policy req resolved tbl : for every rule of the (nested) policy, what the
+   theorems of C01/C11 speak about: [id, effect, outcome, obligations verdict] *)
+Definition enc_outcome (o : outcome) : value :=
+  match o with
+  | OApplies => VStr "applies" | ONa r => vtag "na" [VStr r] | OErr w => vtag "Raise" [VStr w] | OOod => vtag "Ood" []
+  end.
+Definition run_facts (args : list value) : value :=
+  match args with
+  | [VBool strict; policy; req; resolved; tbl] =>
+      let rs := match resolved with VNull => None | v => Some v end in
+      match build_env strict req rs with
+      | None => vtag "Ood" []
+      | Some env =>
+          let ctx := get_key "context" env in
+          VList (map (fun rule =>
+                   VList [rule_id rule;
+                          vopt VStr (rule_effect rule);
+                          enc_outcome (fst (rule_outcome nat (relh_of tbl) rule env 0));
+                          match check "permit" (rule_obls rule) ctx with
+                          | Ok (ok, ch) => vtag "Ok" [VBool ok; vopt VStr ch]
+                          | TypeErr => vtag "TypeErr" [] | Raise w => vtag "Raise" [VStr w] | Ood => vtag "Ood" []
+                          end;
+                          VList (rule_obls rule)])
+                 (all_rules policy))
+      end
+  | _ => vtag "badargs" []
+  end.
+
 Definition run_parse_dt (args : list value) : value :=
   match args with
   | [VBool strict; x] => match parse_dt strict x with
@@ -184,6 +212,7 @@ Definition entries : list (string * (list value -> value)) :=
    ("target.resource", run_match_resource); ("target.actions", run_match_actions);
    ("policy.evaluate", run_evaluate); ("policyset.decide", run_decide_set);
    ("compiler.decide", run_compiled); ("oblig.check", run_check);
-   ("engine.eval", run_engine); ("time.parse_dt", run_parse_dt); ("value.str", run_py_str)].
+   ("engine.eval", run_engine); ("engine.facts", run_facts);
+   ("time.parse_dt", run_parse_dt); ("value.str", run_py_str)].
 
 Definition run_line : string -> string := run_with entries.
